@@ -4,14 +4,14 @@ from vlib.core import write_cfg, validate_trace, count_lines
 LEVEL = "model_checking"
 META = {
     "technique": "TLA+ enumerator Tokens.tla (grammar-shaped token families, exhaustively enumerated by TLC) concretised several ways and fed to every exported text/bytes/address-consuming function under recover + hang watchdog; seeded mutation fuzzing; outcome log validated by TLC",
-    "level_text": "The quantifier 'for every input' is attacked by exhaustive enumeration where index arithmetic lives: TLC enumerates every token string up to the bound for 9 families (raw byte classes incl. invalid UTF-8 / NUL / 63-64-254-byte runs; ARPA label sequences x 15 suffix shapes incl. Unicode look-alikes; long nibble/octet runs; host:port, duration, URL, hosts-line, domain-name and JSON-lexical token grammars). Every abstract input is concretised in 2-3 ways and passed to ~60 exported functions of netutil, hostsfile, urlutil, stringutil and timeutil (strings, []byte, net.IP/IPMask/IPNet slices of every length 0..20, netip values, net.Addr kinds); each call runs under recover with a 20 s hang watchdog; functions with documented preconditions are only called when they hold. A seeded mutation fuzzer adds arbitrary bytes. The TLA+ part is an enumerator with the single predicted observable 'returned' (checked on the outcome log by TokensTrace.tla).",
+    "level_text": "The quantifier 'for every input' is attacked by exhaustive enumeration where index arithmetic lives: TLC enumerates every token string up to the bound for 11 families (raw byte classes incl. invalid UTF-8 / NUL / 63-64-254-byte runs; ARPA label sequences x 15 suffix shapes incl. Unicode look-alikes; long nibble/octet runs; host:port, duration, URL, hosts-line, domain-name, address/prefix and JSON-lexical token grammars, and 64-70 KB runs beyond the standard library's fixed buffers). Every abstract input is concretised in 2-3 ways and passed to ~60 exported functions of netutil, hostsfile, urlutil, stringutil and timeutil (strings, []byte, net.IP/IPMask/IPNet slices of every length 0..20, netip values, net.Addr kinds); each call runs under recover with a 20 s hang watchdog; functions with documented preconditions are only called when they hold. A seeded mutation fuzzer adds arbitrary bytes. The TLA+ part is an enumerator with the single predicted observable 'returned' (checked on the outcome log by TokensTrace.tla).",
     "level_note": "Not a proof of memory safety: the guarantee is 'no panic/hang on any enumerated or sampled input'. Functions documented to panic on invalid enum arguments (ZeroPrefix/IPToAddr with a bad AddrFamily) are called with valid families only.",
 }
 
 FAMILIES = {
     # family: (quick MaxLen, thorough MaxLen)
     "bytes": (3, 4), "arpa": (3, 4), "arparun": (1, 2), "hostport": (3, 4), "duration": (3, 4),
-    "url": (3, 4), "hosts": (3, 4), "names": (3, 4), "json": (3, 4),
+    "url": (3, 4), "hosts": (3, 4), "names": (3, 4), "json": (3, 4), "huge": (3, 3), "prefix": (3, 4),
 }
 
 
